@@ -61,6 +61,7 @@ func TestMain(m *testing.M) {
 		ops.WorkerMain()
 		return
 	}
+	ownScratch := ""
 	if scratch == "" {
 		d, err := os.MkdirTemp(firstWritable("/dev/shm", os.TempDir()), "gtree-verif-")
 		if err != nil {
@@ -68,7 +69,7 @@ func TestMain(m *testing.M) {
 			os.Exit(2)
 		}
 		scratch = d
-		defer os.RemoveAll(d)
+		ownScratch = d
 	}
 	ops.DefaultEnv.Scratch = filepath.Join(scratch, fmt.Sprintf("inproc.%d", os.Getpid()))
 	os.MkdirAll(ops.DefaultEnv.Scratch, 0o755)
@@ -77,8 +78,8 @@ func TestMain(m *testing.M) {
 	closePools()
 	flushAll()
 	os.RemoveAll(ops.DefaultEnv.Scratch)
-	if code != 0 {
-		os.RemoveAll(scratch)
+	if ownScratch != "" {
+		os.RemoveAll(ownScratch)
 	}
 	os.Exit(code)
 }
